@@ -57,11 +57,22 @@ def burying_prog(rng):
         cols = set(cols2)
     kind = rng.choice(["chain", "join", "mat"])
     counter[0] += 10
+    def dress(other, ocols):
+        # the other operand may itself carry a slice, a (sliced) sort, a deduplication ...: none of that excuses the unsliced sort
+        r = rng.random()
+        if r < 0.35:
+            other = ("un", ("slice", rng.choice([0, 1]), rng.choice([3, 6])), mp.DEFAULT, other)
+        elif r < 0.5 and ocols:
+            other = ("un", ("slice", 0, 4), mp.DEFAULT, ("un", ("sort", sp.total_sort_terms(rng, set(ocols))), mp.DEFAULT, other))
+        elif r < 0.6:
+            other = ("un", ("dedup",), mp.DEFAULT, other)
+        return other
     if kind == "chain":
-        other = mp.gen_leaf(rng, counter[0], sorted(cols), sp.SQL, special=0)
+        other = dress(mp.gen_leaf(rng, counter[0], sorted(cols), sp.SQL, special=0), sorted(cols))
         return ("chain", p, other) if rng.random() < 0.5 else ("chain", other, p)
     if kind == "join":
-        other = mp.gen_leaf(rng, counter[0], sorted({c for c in cols if rng.random() < 0.6} | {K(9)}), sp.SQL, special=0)
+        ocols = sorted({c for c in cols if rng.random() < 0.6} | {K(9)})
+        other = dress(mp.gen_leaf(rng, counter[0], ocols, sp.SQL, special=0), ocols)
         return ("join", None, True, False, p, other) if rng.random() < 0.5 else ("join", None, True, False, other, p)
     return ("mat", counter[0], p)
 
